@@ -20,7 +20,7 @@
    judged by the oracles of the sched14 stream (recover(), watchdog, goroutine
    count, handle accounting, reopen). *)
 From Coq Require Import List Arith Bool Lia.
-From RW Require Import Conc.Sys Conc.Close Conc.CloseInv Conc.CloseLive Conc.CloseSafe Conc.CloseThm.
+From RW Require Import Conc.Sys Conc.Close Conc.CloseInv Conc.CloseLive Conc.CloseSafe Conc.CloseReach Conc.CloseThm.
 Import ListNotations.
 
 Theorem C14_after_close : forall progs extra s,
@@ -40,36 +40,33 @@ Theorem C14_mutual_exclusion : forall progs extra s,
 Proof. exact mutual_exclusion. Qed.
 Print Assumptions C14_mutual_exclusion.
 
-(* full statement (not proved):
-   Theorem C14_racing_calls : forall progs extra s, reach progs extra s -> single_writer progs extra ->
-     forall t th, nth_error (ths s) t = Some th ->
-       Forall2 (fun o res => res = ErrClosed \/ correct_result o res) (executed th) (t_outs th)
-       /\ t_pc th <> PPanic.                                                                   *)
-Theorem C14_racing_calls_partial : forall w r s t s',
-  Safe s -> Inv1 w r s -> step s t = Some s' ->
-  forall th', nth_error (ths s') t = Some th' -> t_pc th' <> PPanic.
-Proof. exact no_panic_step. Qed.
-Print Assumptions C14_racing_calls_partial.
+(* ---- reachable states of a system with a single writer thread --------------------------
+   single_writer w progs extra: only thread w runs StoreLogs/DeleteRange (any number of
+   readers, stable-store callers and Close callers).  Proof: CloseReach.full_reach, the
+   invariant Full = CloseSafe.Safe /\ CloseInv.Inv1 is inductive. *)
 
-(* full statements (not proved): the two theorems below with `reach progs extra s` and
-   `single_writer progs extra` in place of `Inv1 w r s`. *)
-Theorem C14_no_deadlock_partial : forall w r s,
-  Inv1 w r s ->
+(* no call ever panics (nil state, closed / nil channel, send on closed channel, offsets index) *)
+Theorem C14_no_panic : forall w progs extra s,
+  single_writer w progs extra -> reach progs extra s -> crashed s = false.
+Proof. exact no_panic_reach. Qed.
+Print Assumptions C14_no_panic.
+
+(* if some call has not returned, some thread can take a step: no deadlock; in particular
+   a writer parked in awaitRotation is woken by the rotation goroutine or by Close *)
+Theorem C14_no_deadlock : forall w progs extra s,
+  single_writer w progs extra -> reach progs extra s ->
   (exists t th, nth_error (ths s) t = Some th /\ t_rot th = false /\ th_done th = false) ->
   exists t, enabled step s t = true.
-Proof. exact no_deadlock_state. Qed.
-Print Assumptions C14_no_deadlock_partial.
+Proof. exact no_deadlock_reach. Qed.
+Print Assumptions C14_no_deadlock.
 
-Theorem C14_rotator_exits_partial : forall w r s,
-  Inv1 w r s -> g_closed (sh s) = true ->
-  (exists thr, nth_error (ths s) r = Some thr /\ t_pc thr = PRDone) \/ exists t, enabled step s t = true.
-Proof. exact rotator_exits_state. Qed.
-Print Assumptions C14_rotator_exits_partial.
-
-(* full statement (not proved):
-   Theorem C14_handles_released : forall progs extra s, reach progs extra s -> g_closed (sh s) = true ->
-     all_callers_done s -> (forall h, h < length (g_hnds (sh s)) -> h_closes (geth (sh s) h) = 1)
-                            /\ g_meta_closes (sh s) = 1.                                         *)
+(* once Close has been called the system cannot come to rest with the rotation goroutine alive *)
+Theorem C14_rotator_exits : forall w progs extra s,
+  single_writer w progs extra -> reach progs extra s -> g_closed (sh s) = true ->
+  (exists thr, nth_error (ths s) (length progs) = Some thr /\ t_pc thr = PRDone) \/
+  exists t, enabled step s t = true.
+Proof. exact rotator_exits_reach. Qed.
+Print Assumptions C14_rotator_exits.
 
 (* ---- non-vacuity / the interesting window -------------------------------------------- *)
 (* GetLog passes the closed check, Close runs to completion, GetLog loads the state:
